@@ -144,9 +144,8 @@ fn client_received_a_message(
                     // a RenetClient that was disconnected once never connects again: start over with a new one
                     cmd.insert_resource(RenetClient::new(bevy_renet::renet::ConnectionConfig::default()));
                     cmd.insert_resource(create_client(ip, port));
-                    // even if it was a client before, this connection is not a new session
-                    // and won't need the initial_sync, so it's consider a client to client promotion
-                    track.host_promotion_in_progress = true;
+                    // even if it was a client before, this connection is not a new session and
+                    // won't need the initial_sync: ClientState stays Connected through the swap
                 }
             }
         }
